@@ -4,16 +4,23 @@ from tools.vlib import *
 PID = "C06"
 READY = True
 MANIFEST = {
-    "level_text": "Lean 4 theorems, for every history of add/withdraw/find/sweep with arbitrary TTLs and clock advances and every "
-                  "tie-break of the truncation sort: the model of KademliaTable's locator table returns at every lookup exactly the live, "
-                  "non-withdrawn announcements of an abstract eager-expiry directory, never more than 20, and a sweep never changes a later "
-                  "lookup. The model is tied to the code by a regenerated constant (kMaxProviders) and by a differential run of the real "
-                  "KademliaTable under a virtual clock against the compiled Lean model, with the Lean specification judging every lookup the "
-                  "implementation answers.",
+    "level_text": "Lean 4 theorems (EphVerif.C06.refines / refines_at / sweep_removes_only_expired / sweep_safe / sweep_safe_later / top20 / "
+                  "cut_valid), proved by a simulation invariant over operation lists, for every history of add / withdraw / find / sweep / "
+                  "clock advance (any number of chunks and peers, TTLs of any sign, advances >= 0) and every tie-break of the truncation sort: "
+                  "the model of KademliaTable's locator table answers every lookup with exactly the live, non-withdrawn announcements of an "
+                  "abstract per-provider eager-expiry directory (as a permutation, hence as a set), never more than 20; what is kept at an "
+                  "announcement is a legal choice of the 20 expiring last; a sweep removes exactly the holders with now >= expiry and nothing "
+                  "else, and inserting a sweep anywhere changes no later lookup (up to the tie-break the property leaves open). The model is "
+                  "tied to the code by a regenerated constant (kMaxProviders, proof obligation = 20) and by a differential run of the real "
+                  "KademliaTable under a virtual clock against the compiled Lean model, with the Lean specification (not the model) judging "
+                  "every lookup and every truncation the implementation performs.",
     "level_note": "Trusted: Lean kernel; hand transcription of add_contact/find_providers/sweep_expired/withdraw_contact into Lean "
-                  "(checked only by the differential run); std::sort/unordered_map semantics; the harness and its canonicalisation. "
-                  "Nanosecond arithmetic is unbounded Int in the model (no overflow within generated ranges).",
-    "technique": "Lean 4 refinement proof (induction over histories) + model/implementation differential correspondence with Lean monitor",
+                  "(unordered_map as a function String -> Option Loc; checked only by the differential run, where all 5 hand-made mutants of "
+                  "the anchored code were caught); std::sort/unordered_map semantics (the order std::sort leaves among equal expiries is taken "
+                  "from the implementation as a hint that model and specification validate; theorems hold for every hint); the harness and its "
+                  "canonicalisation (holders sorted by peer name on both sides). Nanosecond arithmetic is unbounded Int in the model (no "
+                  "int64 overflow within generated ranges); chunk and peer ids are opaque strings.",
+    "technique": "Lean 4 refinement proof (simulation invariant, induction over histories) + model/implementation differential correspondence with Lean monitor",
 }
 SECOND = 1_000_000_000
 
